@@ -48,6 +48,9 @@ pub assume_specification [<u8 as From<bool>>::from](v: bool) -> (r: u8) ensures 
 pub struct ExFromUtf8Error(std::string::FromUtf8Error);
 pub assume_specification [std::string::String::from_utf8] (v: std::vec::Vec<u8>) -> (r: std::result::Result<std::string::String, std::string::FromUtf8Error>)
     ensures r is Ok <==> valid_utf8(v@), r matches Ok(s) ==> s@ == decode_utf8(v@);
+/// `String::into_bytes`: the UTF-8 encoding (std documentation)
+pub assume_specification [std::string::String::into_bytes] (s: std::string::String) -> (r: std::vec::Vec<u8>)
+    ensures r@ == encode_utf8(s@);
 /// `String::len` is the length in bytes of the UTF-8 encoding (std documentation)
 pub assume_specification [std::string::String::len] (s: &std::string::String) -> (r: usize)
     ensures r == encode_utf8(s@).len();
